@@ -448,4 +448,111 @@ theorem specOutcome_classes (arr : Arr) (nz : Nat) (exts : List Nat) (spec : Spe
     rw [hn] at h
     rcases strsOutcome_classes arr nz exts ss c h with r | r <;> simp [r]
 
+/-! ### mask lengths, default-count requests -/
+theorem groupMask_length (arr : Arr) (nz : Nat) (exts : List Nat) (g : String) :
+    (groupMask arr nz exts g).length = exts.length := by simp [groupMask]
+
+/-- every mask that `interpretString` returns has one entry per vial -/
+theorem interpretString_length (arr : Arr) (nz : Nat) (exts : List Nat) (str : String) (choice : List Nat)
+    (m : List Bool) (u : Bool) (h : interpretString arr nz exts str choice = .ok (m, u)) :
+    m.length = exts.length := by
+  unfold interpretString at h
+  simp only at h
+  cases hg : firstGroup (lower str) with
+  | none =>
+    rw [hg] at h
+    revert h
+    cases hr : hasSub "random".toList (lower str) <;> cases hu : hasSub "uniform".toList (lower str) <;>
+    (rcases hn : digitRuns (lower str) none with _ | ⟨n, _ | ⟨n2, rest⟩⟩) <;>
+    simp [bind, Except.bind, pure, Except.pure, throw, throwThe, MonadExceptOf.throw] <;>
+    (repeat' split) <;> simp_all <;> (intro h _; subst h; simp [length_maskFromIdx])
+  | some g =>
+    have hk := firstGroup_known hg
+    rw [hg] at h
+    revert h
+    cases hr : hasSub "random".toList (lower str) <;> cases hu : hasSub "uniform".toList (lower str) <;>
+    (rcases hn : digitRuns (lower str) none with _ | ⟨n, _ | ⟨n2, rest⟩⟩) <;>
+    simp [maskOf_known arr nz exts hk, bind, Except.bind, pure, Except.pure, throw, throwThe, MonadExceptOf.throw] <;>
+    (repeat' split) <;> simp_all <;> (intro h _; subst h; simp [length_maskFromIdx, groupMask_length])
+
+
+
+theorem orMask_length {a b : List Bool} (h : a.length = b.length) : (orMask a b).length = a.length := by
+  simp [orMask, h]
+
+theorem interpretStrings_length (arr : Arr) (nz : Nat) (exts : List Nat) (ss : List String) :
+    ∀ (choices : List (List Nat)) (m : List Bool), interpretStrings arr nz exts ss choices = .ok m →
+      m.length = exts.length := by
+  induction ss with
+  | nil => intro choices m h; simp [interpretStrings] at h; subst h; simp
+  | cons s ss ih =>
+    intro choices m h
+    rw [interpretStrings] at h
+    cases h1 : interpretString arr nz exts s (choices.headD []) with
+    | error e => rw [h1] at h; simp [bind, Except.bind] at h
+    | ok p =>
+      obtain ⟨m1, u⟩ := p
+      rw [h1] at h
+      simp only [bind, Except.bind] at h
+      cases h2 : interpretStrings arr nz exts ss (if u = true then choices.tail else choices) with
+      | error e => rw [h2] at h; simp at h
+      | ok r =>
+        rw [h2] at h
+        simp only [pure, Except.pure, Except.ok.injEq] at h
+        subst h
+        have l1 := interpretString_length arr nz exts s _ m1 u h1
+        have l2 := ih _ r h2
+        rw [orMask_length (l1.trans l2.symm), l1]
+
+/-- default-count requests (`"uniform"`, `"uniform.core"` …: no number in the string):
+the count is `defaultCount N = int(ceil(0.1·N))` -/
+theorem uniform_default_lemma (arr : Arr) (nz : Nat) (exts : List Nat) (s : String) (choice : List Nat)
+    (mask0 : List Bool)
+    (hm : (match firstGroup (lower s) with
+            | some g => maskOf arr nz exts [g]
+            | none => pure (List.replicate exts.length true)) = .ok mask0)
+    (hr : hasSub "random".toList (lower s) = false) (hu : hasSub "uniform".toList (lower s) = true)
+    (hn : digitRuns (lower s) none = []) (hn0 : 0 < defaultCount exts.length) (hc : 0 < (whereTrue mask0).length) :
+    interpretString arr nz exts s choice
+      = .ok (maskFromIdx exts.length (uniformPick (whereTrue mask0) (defaultCount exts.length)), false) := by
+  unfold interpretString
+  simp only [hr, hu, hn]
+  have h1 : ¬ defaultCount exts.length = 0 := by omega
+  have h2 : ¬ (whereTrue mask0).length = 0 := by omega
+  cases hfg : firstGroup (lower s) with
+  | none =>
+    rw [hfg] at hm
+    simp only [pure, Except.pure, Except.ok.injEq] at hm
+    subst hm
+    simp [bind, Except.bind, pure, Except.pure, h1, h2]
+  | some g =>
+    rw [hfg] at hm
+    simp only at hm
+    simp [hm, bind, Except.bind, pure, Except.pure, h1, h2]
+
+theorem random_default_lemma (arr : Arr) (nz : Nat) (exts : List Nat) (s : String) (choice : List Nat)
+    (mask0 : List Bool)
+    (hm : (match firstGroup (lower s) with
+            | some g => maskOf arr nz exts [g]
+            | none => pure (List.replicate exts.length true)) = .ok mask0)
+    (hr : hasSub "random".toList (lower s) = true)
+    (hn : digitRuns (lower s) none = []) :
+    interpretString arr nz exts s choice
+      = if defaultCount exts.length > (whereTrue mask0).length then .error "ValueError"
+        else .ok (maskFromIdx exts.length choice, true) := by
+  unfold interpretString
+  simp only [hr, hn]
+  cases hfg : firstGroup (lower s) with
+  | none =>
+    rw [hfg] at hm
+    simp only [pure, Except.pure, Except.ok.injEq] at hm
+    subst hm
+    by_cases h : defaultCount exts.length > (whereTrue (List.replicate exts.length true)).length <;>
+      simp [bind, Except.bind, pure, Except.pure, h, throw, throwThe, MonadExceptOf.throw]
+  | some g =>
+    rw [hfg] at hm
+    simp only at hm
+    by_cases h : defaultCount exts.length > (whereTrue mask0).length <;>
+      simp [hm, bind, Except.bind, pure, Except.pure, h, throw, throwThe, MonadExceptOf.throw]
+
 end Snow.Store
